@@ -720,6 +720,64 @@ def explore_products(chk, repo, limit=None, seed=0):
     chk.note_analysed('product kill states', len(combos))
 
 
+def explore_repeated(chk, repo, stride=1):
+    """more than one restart when cases raise: call 1 ends with some cases having raised (their directories keep what a failed case leaves behind); call 2 is a restart in
+    which they succeed; call 3 -- any further call on the directory, also after a kill of call 2 -- must execute nothing that has completed and still return one result per
+    case, equal to the results of a study in which nothing ever raised."""
+    mod = repo.by_path('TidalPy/utilities/multiprocessing/multiprocessing.py')
+    where = mod.where(mod.defs['multiprocessing_run'])
+    inputs = [('x', 'X', 0, 1, 'linear', [], 2), ('y', 'Y', 0, 2, 'linear', (), 3)]
+    clean = Scenario('2 x 3 grid, nothing raises', inputs)
+    ref_out, ref_fs, ref_m = reference(repo, clean)
+    ref_rec = _records(ref_out)
+    for fails in (((Fraction(0), Fraction(1)),), ((Fraction(0), Fraction(0)), (Fraction(1), Fraction(2)))):
+        sc = Scenario(f'2 x 3 grid, {len(fails)} case(s) raising in the first call only', inputs, fail=fails, refail=())
+        fs = FS()
+        m1 = Machine(repo, fs, fail_cases=sc.fail, pathos=True)
+        bad = []; n = 0
+        try:
+            m1.run('/study', sc.inputs, force_restart=False, avoid_crashes=True)
+            n1 = len(fs.trace)
+            m2 = Machine(repo, fs, fail_cases=(), pathos=True)
+            m2.run('/study', sc.inputs, force_restart=False, avoid_crashes=True)
+        except RaiseSignal as ex:
+            chk.ob('R18.8', f'[{sc.name}] the study and its first restart run to their end', False, f'raises {ex.text[:120]}', where, key=f'R18.8|{sc.name}|runs'); continue
+        dirs = case_dirs_of(fs)
+        case_args = {}
+        for a_ in ref_m.executed: pass
+        # third call from the final state and from the states a kill of the second call leaves
+        points = [len(fs.trace) - 1] + list(range(n1, len(fs.trace) - 1, max(1, stride)))
+        for k in points:
+            lab, tag, snap = fs.trace[k]
+            fs3 = FS(); fs3.restore(snap); fs3.record = False
+            m3 = Machine(repo, fs3, fail_cases=(), pathos=True)
+            n += 1
+            try:
+                out3 = m3.run('/study', sc.inputs, force_restart=False, avoid_crashes=True)
+            except RaiseSignal as ex:
+                bad.append(f'third call after #{k} ({lab}) raises {ex.text[:80]}'); continue
+            got = _records(out3)
+            p1, _ = compare(ref_rec, got, ref_m.executed, m3, set(), {})
+            if p1:
+                bad.append(f'third call after #{k} ({lab}): ' + '; '.join(p1[:2]))
+            # what had completed when the third call started: the cases the first two calls executed successfully and whose markers were complete at the snapshot
+            done_args = set()
+            for tag_, d_ in dirs.items():
+                c_ = snap[1].get(d_ + '/mp_success.log')
+                r_ = snap[1].get(d_ + '/mp_results.npz')
+                if isinstance(c_, list) and c_ and isinstance(r_, tuple) and r_[0] == 'npz':
+                    done_args.add(tag_)
+            again = [a_ for a_ in m3.executed if any(a_ == t_ or (isinstance(t_, tuple) and tuple(a_) == tuple(t_)) for t_ in done_args)]
+            if k == len(fs.trace) - 1 and m3.executed:
+                bad.append(f'third call on the completed study executes {len(m3.executed)} case(s) again: {[tuple(fmt(None, v_, "", -1) for v_ in a_) for a_ in m3.executed][:3]}')
+            elif again:
+                bad.append(f'third call after #{k} ({lab}) executes completed case(s) again')
+            if len(bad) >= 3: break
+        chk.ob('R18.8', f'[{sc.name}] after a restart in which they succeed, any further call ({n} starting states: the completed study and every kill point of the restart) executes no completed case again and returns one result per case, equal to a study in which nothing raised',
+               not bad, ' | '.join(bad[:3]), where, key=f'R18.8|{sc.name}', method='model interpretation: three calls on one directory')
+    chk.note_analysed('repeated restarts', 'two fail sets x (completed study + kill points of the restart)')
+
+
 def explore_double(chk, repo, stride=1):
     """a restarted study that is itself killed, and restarted again"""
     mod = repo.by_path('TidalPy/utilities/multiprocessing/multiprocessing.py')
